@@ -66,6 +66,24 @@ func newSubject(kind string) *subject {
 
 var kinds = []string{"context", "isolated", "scope", "child-shared", "child-isolated"}
 
+// collect gathers the unique test errors reachable from e (goaterr wrappers expose UnwrapAll).
+func collect(e error, into map[*uerr]bool, depth int) {
+	if e == nil || depth > 8 {
+		return
+	}
+	if u, ok := e.(*uerr); ok {
+		into[u] = true
+		return
+	}
+	if w, ok := e.(interface{ UnwrapAll() []error }); ok {
+		for _, x := range w.UnwrapAll() {
+			collect(x, into, depth+1)
+		}
+		return
+	}
+	collect(errors.Unwrap(e), into, depth+1)
+}
+
 // hammer: G goroutines, each a short PRNG-chosen sequence of signalling calls.
 func hammer(r *sup.CaseResult, rng *rand.Rand, kind string, g, opsPer int) {
 	s := newSubject(kind)
@@ -109,6 +127,9 @@ func hammer(r *sup.CaseResult, rng *rand.Rand, kind string, g, opsPer int) {
 					s.ctx.IsDone()
 				case 5:
 					_ = s.ctx.Err()
+					if s.parent != nil {
+						_ = s.parent.Err() // the parent of a shared child is asked while errors still arrive
+					}
 				case 6:
 					_ = len(s.ctx.Errors())
 				case 7:
@@ -160,6 +181,28 @@ func hammer(r *sup.CaseResult, rng *rand.Rand, kind string, g, opsPer int) {
 	if (s.ctx.Err() != nil) != wantErr {
 		r.Violate("err-accessor", fmt.Sprintf("[%s] Err()=%v although appended=%d kills=%d", kind, s.ctx.Err(), nAppended, nKill), wit)
 	}
+	// every appended error is reported by Err / Wait / Close, not only by Errors()
+	reports := func(what string, e error) {
+		if e == nil {
+			return
+		}
+		got := map[*uerr]bool{}
+		collect(e, got, 0)
+		miss := 0
+		appended.Range(func(k, _ any) bool {
+			if !got[k.(*uerr)] {
+				miss++
+			}
+			return true
+		})
+		if miss > 0 {
+			r.Violate("error-not-reported", fmt.Sprintf("[%s] %s reports an error that lacks %d of the %d appended errors (Errors() holds %d entries)", kind, what, miss, nAppended, len(errs)), wit)
+		}
+	}
+	reports("Err()", s.ctx.Err())
+	if s.parent != nil && kind == "child-shared" {
+		reports("parent.Err()", s.parent.Err())
+	}
 	if signalled {
 		select {
 		case <-s.ctx.Done():
@@ -177,6 +220,7 @@ func hammer(r *sup.CaseResult, rng *rand.Rand, kind string, g, opsPer int) {
 		if (werr != nil) != wantErr {
 			r.Violate("wait-result", fmt.Sprintf("[%s] Wait()=%v although appended=%d kills=%d", kind, werr, nAppended, nKill), wit)
 		}
+		reports("Wait()", werr)
 		var cerr error
 		func() {
 			defer func() {
@@ -189,6 +233,7 @@ func hammer(r *sup.CaseResult, rng *rand.Rand, kind string, g, opsPer int) {
 		if (cerr != nil) != wantErr {
 			r.Violate("close-result", fmt.Sprintf("[%s] Close()=%v although appended=%d kills=%d", kind, cerr, nAppended, nKill), wit)
 		}
+		reports("Close()", cerr)
 		if s.parent != nil {
 			parentFailed := s.parent.Err() != nil
 			if kind == "child-shared" && parentFailed != wantErr {
